@@ -42,15 +42,97 @@ def construct(seed, ids, k):
     raise ValueError(kind)
 
 
+def build_args(av, ids):
+    """the caller's argument objects: ONE Python object per name, handed as it is to every call that names it"""
+    return {'m': {c: arg(a, ids) for c, a in av['m']}, 'rn': {c: c2 for c, c2 in av['rn']},
+            'recs': [{c: untag(v, ids) for c, v in rec} for rec in av['recs']], 'L': [untag(v, ids) for v in av['L']],
+            'cs': list(av['cs']), 'ix': [int(i) for i in av['ix']]}
+
+
+def encode_args(args, ids):
+    col = lambda v: ['l', [tag(x, ids) for x in v]] if isinstance(v, list) else ['s', tag(v, ids)]
+    plain = lambda x: x if type(x) in (str, int) else repr(x)
+    return {'m': [[plain(c), col(v)] for c, v in args['m'].items()], 'rn': [[plain(c), plain(c2)] for c, c2 in args['rn'].items()],
+            'recs': [[[plain(c), tag(v, ids)] for c, v in rec.items()] if isinstance(rec, dict) else repr(rec) for rec in args['recs']],
+            'L': [tag(v, ids) for v in args['L']], 'cs': [plain(c) for c in args['cs']], 'ix': [plain(i) for i in args['ix']]}
+
+
+CALLER_OPS = ('Bind', 'MapSet', 'MapDel', 'RnSet', 'RnDel', 'RecsAppend', 'RecSet', 'LAppend', 'CsAppend', 'CsPop', 'IxAppend')
+
+
+def caller_step(args, h, ids):
+    """the caller's own actions: new objects for all names, or an edit in place"""
+    op = h['op']
+    if op == 'Bind': args.update(build_args(h['av'], ids))
+    elif op == 'MapSet': args['m'][h['c']] = arg(h['arg'], ids)
+    elif op == 'MapDel': del args['m'][h['c']]
+    elif op == 'RnSet': args['rn'][h['c']] = h['c2']
+    elif op == 'RnDel': del args['rn'][h['c']]
+    elif op == 'RecsAppend': args['recs'].append({c: untag(v, ids) for c, v in h['rec']})
+    elif op == 'RecSet': args['recs'][0][h['c']] = untag(h['v'], ids)
+    elif op == 'LAppend': args['L'].append(untag(h['v'], ids))
+    elif op == 'CsAppend': args['cs'].append(h['c'])
+    elif op == 'CsPop': del args['cs'][0]
+    elif op == 'IxAppend': args['ix'].append(int(h['i']))
+    return 'ok'
+
+
 def pyslice(h):
     f = lambda b: None if b[0] == 0 else int(b[1])
     return slice(f(h['lo']), f(h['hi']), int(h['step']))
 
 
-def step(regs, h, ids, k):
-    """one public call; returns the outcome string"""
+def step(regs, args, h, ids, k):
+    """one public call (or one action of the caller on his own objects); returns the outcome string"""
     op = h['op']
+    if op in CALLER_OPS:
+        return caller_step(args, h, ids)
+    m, rn, recs, L, cs, ix = (args[x] for x in ('m', 'rn', 'recs', 'L', 'cs', 'ix'))
+    kwof = lambda: {c: arg(a, ids) for c, a in h['kw']}
     try:
+        # ---- calls that are handed the caller's own objects (the very same object every time)
+        if op == 'NewMap':
+            regs[h['rd']] = [dictable(m), dictable(data=m), dictable(**m)][k % 3]; return 'ok'
+        if op == 'NewMapKw':
+            regs[h['rd']] = dictable(m, **kwof()) if k % 2 else dictable(data=m, **kwof()); return 'ok'
+        if op == 'NewTabKw':
+            regs[h['rd']] = dictable(regs[h['r']], **kwof()) if k % 2 else dictable(data=regs[h['r']], **kwof()); return 'ok'
+        if op == 'NewRecs':
+            regs[h['rd']] = dictable(recs) if k % 2 else dictable(data=recs); return 'ok'
+        if op == 'NewColsL':
+            b = L if h['b'] == 'L' else 'x'
+            regs[h['rd']] = dictable(a=L, b=b) if k % 2 else dictable({'a': L, 'b': b}); return 'ok'
+        if op == 'NewRowsCs':
+            rows = [[untag(v, ids) for v in row] for row in h['rows']]
+            regs[h['rd']] = dictable(rows, cs) if k % 2 else dictable(data=rows, columns=cs); return 'ok'
+        if op == 'ISubCs':
+            regs[h['r']] -= cs; return 'ok'
+        if op == 'IAddRecs':
+            regs[h['r']] += recs; return 'ok'
+        if op == 'IAddRec1':
+            regs[h['r']] += (recs[0] if k % 2 else [recs[0]]); return 'ok'
+        if op in ('SetColL', 'UpdateMap', 'DeriveConstL', 'DeriveMap', 'RenameMap', 'RenameMapKw', 'ProjectCs', 'MinusCs', 'DoCs', 'TakeIx', 'AddRecs', 'AddRec1'):
+            d = regs[h['r']]
+            if op == 'SetColL':
+                if k % 3 == 0: d[h['c']] = L
+                elif k % 3 == 1: setattr(d, h['c'], L)
+                else: d.update({h['c']: L})
+                return 'ok'
+            if op == 'UpdateMap':
+                d.update(m); return 'ok'
+            if op == 'DeriveConstL': res = d(**{h['c']: L})
+            elif op == 'DeriveMap': res = d(**m)
+            elif op == 'RenameMap': res = d.relabel(rn) if k % 2 else d.rename(rn)
+            elif op == 'RenameMapKw': res = d.relabel(rn, **dict(map(tuple, h['kw']))) if k % 2 else d.rename(rn, **dict(map(tuple, h['kw'])))
+            elif op == 'ProjectCs': res = d[cs]
+            elif op == 'MinusCs': res = d - cs
+            elif op == 'DoCs': res = d.do(DOFN[h['fs'][0]] if k % 2 else [DOFN[f] for f in h['fs']], cs)
+            elif op == 'TakeIx': res = d[ix]
+            elif op == 'AddRecs': res = [d + recs, dictable.concat(d, recs), dictable.concat([d, recs])][k % 3]
+            elif op == 'AddRec1': res = d + recs[0]
+            regs[h['rd']] = res
+            return 'ok'
+        # ---- calls whose arguments are made for the call
         if op == 'New':
             regs[h['rd']] = construct(h['seed'], ids, k); return 'ok'
         if op == 'Concat':
@@ -146,10 +228,11 @@ def observe(d, ids):
 def replay_hist(snap):
     ids = IdMap()
     regs = {}
+    args = build_args(snap['args0'], ids)
     out = 'ok'
     for k, h in enumerate(snap['hist']):
-        out = step(regs, h, ids, k + len(snap['hist']))
-    got = {'out': out, 'regs': {}}
+        out = step(regs, args, h, ids, k + len(snap['hist']))
+    got = {'out': out, 'args': encode_args(args, ids), 'regs': {}}
     live = sorted(regs)
     for r in ('r1', 'r2', 'r3'):
         if r in regs:
@@ -160,7 +243,7 @@ def replay_hist(snap):
 
 
 def expected(snap):
-    exp = {'out': snap['out'], 'regs': {}}
+    exp = {'out': snap['out'], 'args': snap['args'], 'regs': {}}
     live = sorted(r for r, v in snap['regs'].items() if v['live'])
     for r, v in snap['regs'].items():
         if not v['live']:
@@ -180,13 +263,14 @@ def check(ctx, snap, where):
         ctx.note(json.dumps(snap['hist'], sort_keys=True))
     if got != exp:
         clause = 'outcome' if got['out'] != exp['out'] else 'state'
-        for r in ('r1', 'r2', 'r3'):
+        for r in ('r1', 'r2', 'r3') if got['args'] == exp['args'] else ():
             g, e = got['regs'][r], exp['regs'][r]
             if g != e and g.get('live') and e.get('live'):
                 if g['same'] != e['same']: clause = 'aliasing'
                 elif g['table'].get('ragged'): clause = 'not_rectangular'
                 elif g['table'].get('rows') == e['table']['rows'] and g['table']['cols'] == e['table']['cols']: clause = 'observations_disagree'
-        ctx.violation(clause, {'op': ops[-1], 'ops': ops, 'hist': snap['hist'], 'source': where}, {'expected': exp, 'observed': got})
+        if got['args'] != exp['args']: clause = 'argument_changed'      # an object of the caller is not what the caller left it as
+        ctx.violation(clause, {'op': ops[-1], 'ops': ops, 'hist': snap['hist'], 'args0': snap['args0'], 'source': where}, {'expected': exp, 'observed': got})
     return got == exp
 
 
@@ -195,7 +279,85 @@ POOL = [["n", 0], ["i", 1], ["i", 2], ["i", 0], ["s", "x"], ["s", ""], ["s", "yy
 COLS = ['a', 'b', 'c', 'e', 'key']
 
 
-def rand_event(rng, regs):
+def rand_world(rng):
+    val = lambda: rng.choice(POOL)
+    n = rng.choice([0, 1, 2, 3])
+    col = lambda: ['s', val()] if rng.random() < 0.3 else ['l', [val() for _ in range(n if rng.random() < 0.9 else n + 1)]]
+    cols = lambda: rng.sample(COLS, rng.choice([0, 1, 2, 3]))
+    return {'m': [[c, col()] for c in cols()], 'rn': [[c, c2] for c, c2 in zip(cols(), rng.sample(['d', 'z', 'y', 'a', 'b'], 3))],
+            'recs': [[[c, val()] for c in rng.sample(COLS, rng.choice([1, 2, 3]))] for _ in range(rng.choice([0, 1, 2, 3]))],
+            'L': [val() for _ in range(rng.choice([0, 1, 2, 3, 3]))], 'cs': rng.sample(COLS, rng.choice([0, 1, 2, 3])),
+            'ix': [rng.randint(-3, 2) for _ in range(rng.choice([1, 2, 3]))]}
+
+
+def rand_arg_event(rng, regs, args, flags):
+    """a call that is handed the caller's objects, or an action of the caller on them; None where the drawn form is outside the domain"""
+    live = sorted(regs)
+    val = lambda: rng.choice(POOL)
+    m, rn, recs, L, cs, ix = (args[x] for x in ('m', 'rn', 'recs', 'L', 'cs', 'ix'))
+    op = rng.choice(['Bind', 'MapSet', 'MapSet', 'MapDel', 'RnSet', 'RnDel', 'RecsAppend', 'RecSet', 'LAppend', 'CsAppend', 'CsPop', 'IxAppend',
+                     'NewMap', 'NewMapKw', 'NewMapKw', 'NewRecs', 'NewColsL', 'NewRowsCs'] +
+                    (['NewTabKw', 'NewTabKw', 'SetColL', 'UpdateMap', 'UpdateMap', 'DeriveConstL', 'DeriveMap', 'RenameMap', 'RenameMap', 'RenameMapKw', 'RenameMapKw',
+                      'ProjectCs', 'MinusCs', 'ISubCs', 'DoCs', 'TakeIx', 'AddRecs', 'IAddRecs', 'AddRec1', 'IAddRec1'] * 2 if live else []))
+    rd = rng.choice(['r1', 'r2', 'r3'])
+    colarg = lambda n: ['s', val()] if rng.random() < 0.4 else ['l', [val() for _ in range(rng.choice([1, n, n, n + 1]))]]
+    if op == 'Bind':
+        flags['lg'] = False
+        return {'op': op, 'av': rand_world(rng)}
+    if op == 'MapSet': return {'op': op, 'c': rng.choice(COLS), 'arg': colarg(rng.choice([0, 1, 2, 3]))}
+    if op == 'MapDel': return {'op': op, 'c': rng.choice(sorted(m))} if m else None
+    if op == 'RnSet': return {'op': op, 'c': rng.choice(COLS), 'c2': rng.choice(['d', 'z', 'y', 'a', 'b'])}
+    if op == 'RnDel': return {'op': op, 'c': rng.choice(sorted(rn))} if rn else None
+    if op == 'RecsAppend': return {'op': op, 'rec': [[c, val()] for c in rng.sample(COLS, rng.choice([1, 2]))]} if len(recs) < 4 else None
+    if op == 'RecSet': return {'op': op, 'c': rng.choice(COLS), 'v': val()} if recs else None
+    if op == 'LAppend': return {'op': op, 'v': val()} if not flags['lg'] and len(L) < 5 else None
+    if op == 'CsAppend': return {'op': op, 'c': rng.choice(COLS)} if len(cs) < 4 else None
+    if op == 'CsPop': return {'op': op} if cs else None
+    if op == 'IxAppend': return {'op': op, 'i': rng.randint(-3, 2)} if len(ix) < 5 else None
+    if op == 'NewMap': return {'op': op, 'rd': rd}
+    if op == 'NewRecs': return {'op': op, 'rd': rd}
+    if op == 'NewColsL':
+        flags['lg'] = True
+        return {'op': op, 'rd': rd, 'b': rng.choice(['L', 'x'])}
+    if op == 'NewRowsCs':
+        return {'op': op, 'rd': rd, 'rows': [[val() for _ in cs] for _ in range(rng.choice([0, 1, 2, 3]))]} if cs and len(set(cs)) == len(cs) else None
+    if op == 'NewMapKw':
+        free = [c for c in COLS + ['d'] if c not in m]
+        return {'op': op, 'rd': rd, 'kw': [[c, colarg(2)] for c in rng.sample(free, min(len(free), rng.choice([1, 2])))]} if free else None
+    r = rng.choice(live); d = regs[r]
+    cols = list(dict.keys(d))
+    sole = sum(1 for s in live if regs[s] is d) == 1
+    try:
+        n = len(d)
+    except Exception:
+        n = 0
+    fits = lambda pairs: len({dict(pairs).get(c, c) for c in cols}) == len(cols)
+    if op == 'NewTabKw':
+        free = [c for c in COLS + ['d'] if c not in cols]
+        return {'op': op, 'r': r, 'rd': rd, 'kw': [[c, colarg(n)] for c in rng.sample(free, min(len(free), rng.choice([1, 2])))]} if free else None
+    if op in ('SetColL', 'DeriveConstL'):
+        flags['lg'] = True
+        return {'op': op, 'r': r, 'rd': rd, 'c': rng.choice(COLS)}
+    if op in ('UpdateMap', 'DeriveMap', 'MinusCs', 'AddRecs'): return {'op': op, 'r': r, 'rd': rd}
+    if op == 'RenameMap': return {'op': op, 'r': r, 'rd': rd} if fits(list(rn.items())) else None
+    if op == 'RenameMapKw':
+        free = [c for c in COLS if c not in rn]
+        kw = [[c, c2] for c, c2 in zip(rng.sample(free, min(len(free), rng.choice([1, 2]))), rng.sample(['y2', 'z2', 'a', 'b'], 2))]
+        return {'op': op, 'r': r, 'rd': rd, 'kw': kw} if kw and fits(list(rn.items()) + [tuple(x) for x in kw]) else None
+    if op == 'ProjectCs': return {'op': op, 'r': r, 'rd': rd} if cs and len(set(cs)) == len(cs) else None
+    if op == 'DoCs': return {'op': op, 'r': r, 'rd': rd, 'fs': ['none0']} if cs and set(cs) <= set(cols) else None
+    if op == 'TakeIx': return {'op': op, 'r': r, 'rd': rd} if ix else None
+    if op == 'AddRec1': return {'op': op, 'r': r, 'rd': rd} if recs else None
+    if op in ('ISubCs', 'IAddRecs'): return {'op': op, 'r': r, 'rd': r} if sole else None
+    if op == 'IAddRec1': return {'op': op, 'r': r, 'rd': r} if sole and recs else None
+    raise RuntimeError(op)
+
+
+def rand_event(rng, regs, args=None, flags=None):
+    if args is not None and rng.random() < 0.4:
+        e = rand_arg_event(rng, regs, args, flags)
+        if e is not None:
+            return e
     live = sorted(regs)
     val = lambda: rng.choice(POOL)
     def seed():
@@ -307,9 +469,9 @@ def rand_event(rng, regs):
     return {'op': op, 'r': r, 'rd': rd}
 
 
-def post(regs, ids):
+def post(regs, ids, args=None):
     live = sorted(regs)
-    p = {}
+    p = {'args': encode_args(args, ids)} if args is not None else {}
     for r in ('r1', 'r2', 'r3'):
         if r in regs:
             t = observe(regs[r], ids)
@@ -321,14 +483,18 @@ def post(regs, ids):
     return p
 
 
+NO_ARGS = {'m': [], 'rn': [], 'recs': [], 'L': [], 'cs': [], 'ix': []}
+
+
 def c2s(ctx, nhist):
     obs = []
     for i in range(nhist):
         ids = IdMap(); regs = {}; events = []
+        args = build_args(NO_ARGS, ids); flags = {'lg': False}
         for k in range(ctx.rng.choice([4, 8, 12, 20])):
-            e = rand_event(ctx.rng, regs)
-            e['out'] = step(regs, e, ids, ctx.rng.randint(0, 11))
-            e['post'] = post(regs, ids)
+            e = rand_event(ctx.rng, regs, args, flags) if k else {'op': 'Bind', 'av': rand_world(ctx.rng)}
+            e['out'] = step(regs, args, e, ids, ctx.rng.randint(0, 11))
+            e['post'] = post(regs, ids, args)
             events.append(e)
         obs.append({'events': events})
         ctx.note(('c2s', i))
@@ -349,7 +515,12 @@ def run(ctx):
     ctx.rule = ('every behaviour of the session state machine Dictable.tla (all call sequences of length <= 2 from the menus; every history '
                 '"table, table made from it, one of the two changed in place or grown by +=" of the directed form NextDerived; simulated '
                 'sequences of length 6 and 10) replayed on real dictables; all live tables projected through column lists, len, shape, '
-                'iteration, d[i][c], d[c][i] and compared with the state TLC printed, aliasing included. Non-trivial = at least two different operations.')
+                'iteration, d[i][c], d[c][i] and compared with the state TLC printed, aliasing included. The session also holds the CALLER\'S '
+                'argument objects (a dict of columns, a dict of renames, a list of records, a list of values, a list of names, a list of positions): '
+                'one Python object per name is handed to every call that names it (dictable(m, c = ..), dictable(d, c = ..), d.update(m), d(**m), '
+                'd.relabel(rn, b = ..), d[cs], d - cs, d.do(f, cs), d + recs, d[c] = L, dictable(a = L, b = L) ...), the caller edits them in place between '
+                'calls, every ordered pair of such calls on the same objects is generated, and after the history every object must equal what the '
+                'specification says the caller left it as (clause argument_changed). Non-trivial = at least two different operations.')
     ctx.mc('Dictable', 'Dictable_mc2.cfg' if ctx.quick else 'Dictable_mc3.cfg')
     snaps = ctx.generate('Dictable', 'Dictable_gen2.cfg')
     for s in snaps:
@@ -361,6 +532,14 @@ def run(ctx):
         check(ctx, s, 'derived-then-changed')
     pick = [s for s in snaps if s['hist'][-1]['op'].startswith('IAdd')]
     ctx.sample({'history': pick[len(pick) // 2]['hist'], 'expected_state': pick[len(pick) // 2]['regs']})
+    # shared argument objects: the caller's objects ; a table ; a call that is handed some of them ; [the caller edits one in place ;] a second
+    # call that is handed the same objects - every ordered pair of such calls; all objects and all registers observed at the end
+    for cfg in (['Dictable_genshared.cfg'] if ctx.quick else ['Dictable_gensharedall.cfg', 'Dictable_gensharededit.cfg']):
+        snaps = ctx.generate('Dictable', cfg)
+        for s in snaps:
+            check(ctx, s, 'shared-arguments')
+        pick = [s for s in snaps if len(s['hist']) >= 4 and s['hist'][-1]['op'] == 'RenameMap'] or snaps
+        ctx.sample({'history': pick[len(pick) // 2]['hist'], 'expected_args': pick[len(pick) // 2]['args'], 'expected_state': pick[len(pick) // 2]['regs']})
     for cfg, num, depth, cap in ([('Dictable_sim6.cfg', 900, 7, 3000)] if ctx.quick else
                                  [('Dictable_sim6.cfg', 12000, 7, 40000), ('Dictable_sim10.cfg', 6000, 11, 20000)]):
         sims = ctx.generate('Dictable', cfg, simulate=num, depth=depth, seed=ctx.seed + 1, workers=1)
@@ -374,7 +553,9 @@ def run(ctx):
                         'e += x is taken for names that are the only name of their table: the name then holds e + x and no other table moves; whether e is a new object or grew in place is not judged',
                         'd(c = f, c2 = g) with g reading c only where c is a new column (old-or-new c is open otherwise); per-column transforms with further parameters: the parameter names a column of the same record and sees the current record',
                         'd + None and dictable.concat(d) return their operand (named deviations AddNone / ConcatOne: aliases, not copies)',
-                        'rename onto an existing column, masks of the wrong length and cell mutation through returned lists are outside the domain']
+                        'rename onto an existing column, masks of the wrong length and cell mutation through returned lists are outside the domain',
+                        'argument objects: a list handed over as a column (d[c] = L, dictable(a = L), d(c = L)) may be kept by the table as the column itself, so the caller no longer edits L after that (flag lg); dicts, lists of records / names / positions are edited freely',
+                        'dictable(m, **kw) / dictable(d, **kw) / d.relabel(rn, **kw) only with keyword names that the mapping / table does not have (which side wins is not pinned down); relabels only where no two columns end up under one name']
 
 
 def replay(ctx, body):
@@ -382,13 +563,14 @@ def replay(ctx, body):
     case = body['case']
     if case.get('source') == 'c2s':
         ids = IdMap(); regs = {}; events = []
+        args = build_args(NO_ARGS, ids)
         for k, e in enumerate(case['hist']):
             e = {kk: v for kk, v in e.items() if kk != 'out'}
-            e['out'] = step(regs, e, ids, k); e['post'] = post(regs, ids); events.append(e)
+            e['out'] = step(regs, args, e, ids, k); e['post'] = post(regs, ids, args); events.append(e)
         bad = ctx.validate('Trace_Dictable', [{'events': events}])
         print('replay:', 'REJECTED %s' % bad if bad else 'accepted')
         return 1 if bad else 0
-    got = replay_hist({'hist': case['hist']})
+    got = replay_hist({'hist': case['hist'], 'args0': case.get('args0', NO_ARGS)})
     exp = body['detail']['expected']
     print('replay:', 'state differs from the specification' if got != exp else 'state equals the specification')
     return 1 if got != exp else 0
